@@ -329,6 +329,10 @@ func c17History(w *rt.W, t c17Type, r *rt.Rand, hseed int64, hindex uint64) (saw
 			lastOK = true
 			w.ClassN(t.name+"-successful-decode", 1)
 		}
+		errText := ""
+		if err != nil {
+			errText = err.Error()
+		}
 		// the caller reuses its buffer: a parsed value must not change
 		if t.ops[op].bytes {
 			for i := range backing {
@@ -337,6 +341,12 @@ func c17History(w *rt.W, t c17Type, r *rt.Rand, hseed int64, hindex uint64) (saw
 			if now := t.snap(recv); now != model {
 				w.Fail("value-aliases-input-buffer-"+t.name, "history", args(), now, model, "the receiver changed when the caller overwrote the input buffer after "+t.ops[op].name+" returned")
 				model = now
+			}
+			if err != nil {
+				var now string
+				if p, _ := rt.Call(func() { now = err.Error() }); p || now != errText {
+					w.Fail("error-aliases-input-buffer-"+t.name, "history", args(), now, errText, "the error returned by "+t.ops[op].name+" reads differently after the caller overwrote the input buffer")
+				}
 			}
 		}
 	}
